@@ -118,6 +118,9 @@ pub enum Pred {
     ToParity(bool),
     /// accept only edges leaving vertices of this parity
     FromParity(bool),
+    /// accept everything, and panic at the k-th question (the caller catches it; slice_some takes
+    /// `&self`, so nothing may have changed, and later slices must be right)
+    PanicAt(u8),
 }
 
 /// Out-of-contract calls (C07 profile only).
@@ -176,6 +179,15 @@ pub enum Step {
     NextId { i: usize, var: usize },
     Clone { src: usize, dst: usize, link: bool },
     Unlink { i: usize },
+    /// a script with two variables: `ADD($a); ADD($b); BIND(p, $a, l1); BIND($a, $b, l2);`
+    Script2 { i: usize, p: Id, l1: PLabel, l2: PLabel, a: String, b: String },
+    /// `times` binds of the same label of `v`, alternately to `t1` and `t2`, with nothing looked at
+    /// in between (counters that wrap, caches that are validated by a revision number)
+    Storm { i: usize, v: Id, a: PLabel, t1: Id, t2: Id, times: usize },
+    /// `times` calls of slice(v) whose results are dropped unseen
+    SliceStorm { src: usize, v: Id, times: usize },
+    /// `dst.clone_from(&src)` on a graph that already exists and was used
+    CloneFrom { src: usize, dst: usize },
     Drop { i: usize },
     Slice {
         src: usize,
@@ -221,12 +233,14 @@ impl Step {
             Self::Put { .. } | Self::PutRaw { .. } => "put",
             Self::Data { .. } => "data",
             Self::NextId { .. } => "next_id",
-            Self::Clone { .. } => "clone",
+            Self::Clone { .. } | Self::CloneFrom { .. } => "clone",
             Self::Unlink { .. } => "unlink",
+            Self::Storm { .. } => "storm",
+            Self::SliceStorm { .. } => "slicestorm",
             Self::Drop { .. } => "drop",
             Self::Slice { .. } => "slice",
             Self::Merge { .. } => "merge",
-            Self::Script { .. } => "script",
+            Self::Script { .. } | Self::Script2 { .. } => "script",
             Self::Save { fault, .. } => match fault {
                 WFault::None => "save",
                 WFault::OpenFail => "save!open",
@@ -276,6 +290,15 @@ pub struct Cfg {
     /// over instead of ending the run (none: every clause ends it)
     #[serde(default)]
     pub judge: Option<String>,
+    /// the `log` crate's maximum level during the run (0 = off … 5 = trace); sodg's debug!/trace!
+    /// arguments are evaluated only when the level admits them (L-replicas of C19)
+    #[serde(default)]
+    pub log_level: u8,
+    /// the full read-only sweep (kids, kid for every probe label, v_print) runs after every k-th
+    /// operation only (0 or 1 = after every one): an observer that looks after every step keeps
+    /// lookup caches inside the code under test permanently warm
+    #[serde(default)]
+    pub sweep_every: usize,
 }
 
 impl Cfg {
